@@ -57,13 +57,16 @@ def check_env():
     return 0 if ok else 2
 
 
-def run_worker(inst, prop):
+def run_worker(inst, prop, max_new=None):
     cmd = [PYVT, "-m", "vf.worker", inst.module, inst.name, json.dumps(inst.params),
            str(inst.budget), str(inst.path_timeout), prop]
     t0 = time.time()
     wall_cap = inst.budget * 5.0 + 300     # CPU budgets; the machine may be heavily shared
+    env = _env()
+    if max_new is not None:
+        env["VERIF_MAXNEW"] = str(max_new)
     try:
-        p = subprocess.run(cmd, cwd=VERIF, env=_env(), capture_output=True, text=True,
+        p = subprocess.run(cmd, cwd=VERIF, env=env, capture_output=True, text=True,
                            timeout=wall_cap)
     except subprocess.TimeoutExpired:
         return {"crashed": "wall timeout %ds" % wall_cap, "wall_s": time.time() - t0}
@@ -182,14 +185,34 @@ def main(argv):
             harness_errors.append({"harness": inst.ident, "error": he.get("error"),
                                    "trace": he.get("trace", "")})
         new_here = 0
+        unreproduced = []
         for rec in m["violations"]:
             path, rep, detail = confirm(prop, inst, rec)
             if rep:
                 violations.append((inst, rec, path))
                 new_here += 1
             else:
-                harness_errors.append({"harness": inst.ident, "error": "counterexample does not reproduce",
-                                       "replay": path, "kind": rec["kind"], "detail": detail})
+                unreproduced.append({"harness": inst.ident, "error": "counterexample does not reproduce",
+                                     "replay": path, "kind": rec["kind"], "detail": detail})
+        if unreproduced and not new_here:
+            # A counterexample that fails under plain replay usually means state leaked from one explored path
+            # into the next inside the engine process (e.g. a changed library keeps data in a class-level
+            # default).  Collect more candidates and report the first that does reproduce in a fresh process;
+            # only if none does is this a harness error.
+            again = run_worker(inst, prop, max_new=25)
+            seen = {json.dumps(r["draws"], sort_keys=True) for r in m["violations"]}
+            for rec in (again.get("main") or {}).get("violations", []):
+                key = json.dumps(rec["draws"], sort_keys=True)
+                if key in seen:
+                    continue
+                seen.add(key)
+                path, rep, detail = confirm(prop, inst, rec)
+                if rep:
+                    violations.append((inst, rec, path))
+                    new_here += 1
+                    break
+        if unreproduced and not new_here:
+            harness_errors.extend(unreproduced)
         for fid, rec in m["known"].items():
             path, rep, detail = confirm(prop, inst, rec)
             if rep:
